@@ -679,6 +679,7 @@ def csv_oracle(c, impl):
     codes = impl['validation']
     table_ok = wf['balanced'] and wf['tw_order'] and wf['type_ids_distinct'] and wf['has_vehicle']
     if codes and table_ok:
+        # regression class of the repaired finding C11-F1 (kind "fixed": suppresses nothing)
         if codes == ['E1301'] and not wf['profiles_distinct']:
             v.append({'class': 'csv-vehicle-ids-from-profile:rows-sharing-a-profile-get-equal-vehicle-ids',
                       'what': 'two vehicle rows with the same PROFILE import as duplicate vehicle ids (E1301)'})
